@@ -292,7 +292,6 @@ theorem VM.neBool {v : LuaValue N} {c : Bool} (h : VM v (.bool c)) :
 /-- the local condition of `h8` at a binary node -/
 def localOK (op : BinOp) (vl vr : LuaValue N) : Bool :=
   match op with
-  | .eq | .ne => numEqOK E vl vr
   | .concat => concatOK E vl vr
   | _ => true
 
@@ -322,14 +321,14 @@ theorem binop_value_sound (A : Agree N E) {op : BinOp} (h1 : op ≠ .and) (h2 : 
     · rw [evaluateEqual_unknown E hu]; trivial
     · rw [binopVal_eq hm] at h
       cases h
-      exact evaluateEqual_sound hl hr hlocal (fun x y => (hmeta (Or.inl rfl) x y).2.2) (hfn (Or.inl rfl))
+      exact evaluateEqual_sound hl hr (fun x y => (hmeta (Or.inl rfl) x y).2.2) (hfn (Or.inl rfl))
   case ne =>
     simp only [evaluateBinary]
     rcases eq_prep hl hr (hmeta (Or.inr rfl)) with hu | hm
     · rw [evaluateEqual_unknown E hu]; trivial
     · rw [binopVal_ne hm] at h
       cases h
-      exact (evaluateEqual_sound hl hr hlocal (fun x y => (hmeta (Or.inr rfl) x y).2.2) (hfn (Or.inr rfl))).neBool
+      exact (evaluateEqual_sound hl hr (fun x y => (hmeta (Or.inr rfl) x y).2.2) (hfn (Or.inr rfl))).neBool
   case concat => exact evaluateConcat_sound hl hr hlocal h
   case lt => exact evaluateRelational_sound (Or.inl rfl) hl hr h
   case le => exact evaluateRelational_sound (Or.inr (Or.inl rfl)) hl hr h
